@@ -80,6 +80,7 @@ structure InstName where
 structure Desc where
   insts : Array Inst
   names : List InstName := []
+  tlnames : Array String := #[]   -- TL name of every instance (optional trailing `N` section; used by the JSON model for union variant names)
   deriving Repr, Inhabited
 
 def Desc.get? (d : Desc) (i : Nat) : Option Inst := d.insts[i]?
@@ -207,13 +208,27 @@ def pInstName : P InstName := fun ts => do
     pure ({ idx := i, tlname := n, topLevel := t }, ts)
   | [] => none
 
-def parseDesc (ts : List String) : Option Desc := do
-  let (is, rest) ← pCounted pInst ts
-  match rest with
-  | [] => pure { insts := is.toArray }
+def pWord : P String
+  | t :: r => some (t, r)
+  | [] => none
+
+/-- one optional trailing section: `R` registry names or `N` TL names of all instances -/
+def pSection (d : Desc) : List String → Option (Desc × List String)
   | "R" :: rest => do
     let (ns, rest) ← pCounted pInstName rest
-    if rest.isEmpty then pure { insts := is.toArray, names := ns } else none
+    pure ({ d with names := ns }, rest)
+  | "N" :: rest => do
+    let (ns, rest) ← pCounted pWord rest
+    pure ({ d with tlnames := ns.toArray }, rest)
   | _ => none
+
+def parseDesc (ts : List String) : Option Desc := do
+  let (is, rest) ← pCounted pInst ts
+  let d : Desc := { insts := is.toArray }
+  if rest.isEmpty then pure d else
+  let (d, rest) ← pSection d rest
+  if rest.isEmpty then pure d else
+  let (d, rest) ← pSection d rest
+  if rest.isEmpty then pure d else none
 
 end TLVerif.Codec
